@@ -144,6 +144,7 @@ P("C15",
   rc={"quick": (8, 40000, 100, 2), "thorough": (12, 400000, 100, 2)},
   exh={"quick": 8, "thorough": 16},
   budget={"quick": 120, "thorough": 1500},
+  fuzz={"quick": None, "thorough": (2, 2000000, 4096)},
   rule="(a) Row::freespace on a generated row (3 coordinate scales up to 2^22, 4 orientations) and 0..6 obstacle "
        "rectangles drawn from classes inside / partial height / touching an edge / enclosing / degenerate / sticking "
        "out / anywhere; (b) Circuit::computeRows(extra) on 1..4 row levels (split rows, gaps) with 1..8 cells of any "
@@ -196,6 +197,7 @@ P("C01",
 P("C11",
   exh={"quick": 8, "thorough": 16},
   rc={"quick": (12, 8000, 100, 8), "thorough": (14, 100000, 100, 16)},
+  fuzz={"quick": None, "thorough": (2, 2000000, 4096)},
   rule=CIRCUIT_RULE + "Restricted to row-high movable cells and |v| < 2^20. The legal placement is either produced by "
        "legalize from the generated start or constructed by packing cells into free segments with tape-chosen gaps "
        "(gap 0 likely); legalize is then called again, possibly with other accepted ordering parameters, and every "
@@ -209,6 +211,7 @@ P("C11",
 P("C04",
   rc={"quick": (12, 5000, 100, 8), "thorough": (14, 60000, 100, 16)},
   exh={"quick": 1, "thorough": 1},
+  fuzz={"quick": None, "thorough": (2, 2000000, 4096)},
   rule=CIRCUIT_RULE + "60% of the movable cells carry a polarity (SAME/OPPOSITE on odd, NW/SE on even row counts, 10% "
        "deliberately mismatched). Oracle: the harness's own polarity table applied to the row at each cell's bottom edge, "
        "after legalize, inside every Detailed callback of placeDetailed and after it; cells without polarity must keep "
@@ -222,6 +225,7 @@ P("C02",
   rc={"quick": (12, 2500, 100, 8), "thorough": (14, 40000, 100, 16)},
   exh={"quick": 4, "thorough": 16},
   budget={"quick": 150, "thorough": 1500},
+  fuzz={"quick": None, "thorough": (2, 2000000, 4096)},
   rule=CIRCUIT_RULE + "Layer (a): legalize on a copy; where it returns, placeDetailed with an observing callback must "
        "return, every Detailed callback state and the result must satisfy the C01 legality predicate, multi-row cells "
        "keep x/y/orientation from the first callback on. Layer (b): DetailedPlacer on the legalized circuit driven by a "
@@ -237,6 +241,7 @@ P("C02",
 P("C05",
   rc={"quick": (12, 3000, 100, 8), "thorough": (14, 40000, 100, 16)},
   budget={"quick": 150, "thorough": 1500},
+  fuzz={"quick": None, "thorough": (2, 2000000, 4096)},
   rule=CIRCUIT_RULE + "Layer (a): Circuit::hpwl() recorded at every Detailed callback of placeDetailed and at return must "
        "be non-increasing and end at or below the value after legalize alone on an identical copy. Layer (b): "
        "DetailedPlacer on the legalized circuit driven by 1..12 generated passes: value() never increases, equals hpwl() "
@@ -297,6 +302,7 @@ P("C10",
 P("C17",
   rc={"quick": (12, 5000, 100, 8), "thorough": (14, 80000, 100, 8)},
   budget={"quick": 150, "thorough": 1500},
+  fuzz={"quick": None, "thorough": (2, 2000000, 4096)},
   rule="net lists on 1..15 cells built directly on NetModel: 1..20 nets of degree 2..5 (a third of the cases 2-pin only), "
        "fixed and movable pins, offsets in quarter units, weights 1 / quarter multiples / real in [0.25,8], every cell anchored "
        "with probability 0.85, coordinates and targets in [0,100] (targets also outside), penalty strengths [50,500], cutoff "
@@ -314,6 +320,7 @@ P("C17",
 P("C16",
   rc={"quick": (12, 4000, 100, 8), "thorough": (14, 60000, 100, 8)},
   budget={"quick": 150, "thorough": 1500},
+  fuzz={"quick": None, "thorough": (2, 2000000, 4096)},
   rule="a DensityLegalizer is built either on generated disjoint row-like regions (split rows, missing rows, origin up to "
        "2^20, bin size 1..3 row heights, 1..25 cells with 1 in 8 of zero demand) or through fromIspdCircuit on generated "
        "circuits (obstructions, margins 0..1.5, bin factors 1..25, zero-size movable cells); then a state machine applies "
@@ -330,6 +337,7 @@ P("C16",
 
 P("C18",
   rc={"quick": (12, 8000, 100, 8), "thorough": (14, 120000, 100, 8)},
+  fuzz={"quick": None, "thorough": (2, 2000000, 4096)},
   rule=CIRCUIT_RULE + "Zero-size movable cells allowed. expandCellsToDensity(target in (0,1), margin 0..2, cap 0.05..1.5) and "
        "expandCellsByFactor(factors in [1,4], maxDensity 0.05..1.5, margin): only widths of movable cells change (frame "
        "snapshot), no movable width decreases when cap*maxRowWidth >= its width, movable area <= target*A_hi + 1e-5*A + sum of "
